@@ -12,6 +12,9 @@ pub struct KuSpec {
     pub re: Option<String>,
     pub lines: Vec<String>,
     pub indent: usize,
+    /// a second rule on the same block: 0 none, 1 `keep-sorted`, 2 `keep-sorted="desc"`, 3 `line-count=">=0"`
+    #[serde(default)]
+    pub companion: u8,
 }
 
 #[derive(Clone, Debug, Serialize, Deserialize)]
@@ -28,10 +31,27 @@ impl KuSpec {
         }
     }
     pub fn to_block(&self, i: usize) -> RuleBlock {
-        RuleBlock {
-            attrs: vec![("name".into(), Some(format!("b{i}"))), ("keep-unique".into(), self.re.clone())],
-            lines: self.lines.clone(),
-            indent: self.indent,
+        let mut attrs = vec![("name".into(), Some(format!("b{i}")))];
+        match self.companion % 4 {
+            1 => attrs.push(("keep-sorted".into(), None)),
+            2 => attrs.push(("keep-sorted".into(), Some("desc".into()))),
+            3 => attrs.push(("line-count".into(), Some(">=0".into()))),
+            _ => {}
+        }
+        attrs.push(("keep-unique".into(), self.re.clone()));
+        RuleBlock { attrs, lines: self.lines.clone(), indent: self.indent }
+    }
+    /// what the companion rule reports on the same block (reference model of C06)
+    pub fn companion_model(&self) -> Option<(usize, models::Span)> {
+        let dir = match self.companion % 4 {
+            1 => models::Dir::Asc,
+            2 => models::Dir::Desc,
+            _ => return None,
+        };
+        let lines: Vec<&str> = self.lines.iter().map(String::as_str).collect();
+        match models::keep_sorted(&lines, dir, None, false) {
+            models::KsOutcome::OutOfOrder(i, sp) => Some((i, sp)),
+            _ => None,
         }
     }
     pub fn model(&self) -> Option<(usize, models::Span)> {
@@ -64,10 +84,14 @@ pub fn check_batch(b: &KuBatch, probe: &Probe) -> Verdict {
         json!({"host": format!("{:?}", b.host), "batch_size": b.specs.len(), "one_block": s, "model_first_duplicate": format!("{:?}", s.model())})
     });
     let exp = |i: usize, pos: &crate::rules::BlockPos| -> Vec<ExpDiag> {
-        match &outcomes[i] {
-            Some((idx, span)) => vec![ExpDiag::key("keep-unique", pos, *idx, *span)],
-            None => vec![],
+        let mut v = vec![];
+        if let Some((idx, span)) = &outcomes[i] {
+            v.push(ExpDiag::key("keep-unique", pos, *idx, *span));
         }
+        if let Some((idx, span)) = b.specs[i].companion_model() {
+            v.push(ExpDiag::key("keep-sorted", pos, idx, span));
+        }
+        v
     };
     let reduce = |i: usize| serde_json::to_value(KuBatch { host: b.host, specs: vec![b.specs[i].clone()] }).unwrap();
     super::linerules::check_rule_batch("C07", b.host, &blocks, &exp, probe, &reduce)
@@ -81,7 +105,11 @@ pub fn enumerated(max_len: usize, batch: usize) -> Vec<KuBatch> {
     for len in 0..=max_len {
         for seq in super::c06::sequences(ALPHA, len).into_iter().filter(|s| s.len() == len) {
             for re in RES {
-                specs.push(KuSpec { re: re.map(String::from), lines: seq.clone(), indent: 0 });
+                specs.push(KuSpec { re: re.map(String::from), lines: seq.clone(), indent: 0, companion: 0 });
+                if re.is_none() {
+                    // the README's `<block keep-sorted keep-unique>` idiom: both rules on one block
+                    specs.push(KuSpec { re: None, lines: seq.clone(), indent: 0, companion: 1 + (seq.len() % 2) as u8 });
+                }
             }
         }
     }
@@ -92,11 +120,12 @@ fn long_spec() -> BoxedStrategy<KuSpec> {
     let word = proptest::string::string_regex("[a-cé名]{1,3}").unwrap();
     (
         proptest::collection::vec((word, 0usize..3, 0usize..3, 0u32..40), 5..150),
-        0usize..4,
+        0usize..RES.len(),
         any::<bool>(),
         0usize..3,
+        prop_oneof![2 => Just(0u8), 1 => 1u8..4],
     )
-        .prop_map(|(ws, re_i, dup_free, indent)| {
+        .prop_map(|(ws, re_i, dup_free, indent, companion)| {
             let with_re = re_i >= 2;
             let mut lines: Vec<String> = vec![];
             for (k, (w, l, t, id)) in ws.into_iter().enumerate() {
@@ -108,7 +137,7 @@ fn long_spec() -> BoxedStrategy<KuSpec> {
                     format!("{}{core}{}", " ".repeat(l), " ".repeat(t))
                 });
             }
-            KuSpec { re: RES[re_i].map(String::from), lines, indent }
+            KuSpec { re: RES[re_i].map(String::from), lines, indent, companion }
         })
         .boxed()
 }
@@ -118,7 +147,7 @@ pub fn random_batch() -> BoxedStrategy<KuBatch> {
 }
 
 pub fn run(run: &mut Run) {
-    run.rule = "enumerated: every line sequence of length 0..k (k=4 quick, 5 thorough) over an 11-line alphabet (repeated keys, keys differing only in indentation/trailing blanks, keys differing only outside the regex group, blank and non-matching lines) x {bare attribute, empty value, group regex, plain regex}; random: blocks of 5..150 lines with and without duplicates. Non-trivial block = at least 2 keys and (a duplicate key, a skipped line, or a repeated line); distinct by (batch, block).".into();
+    run.rule = "enumerated: every line sequence of length 0..k (k=4 quick, 5 thorough) over an 11-line alphabet (repeated keys, keys differing only in indentation/trailing blanks, keys differing only outside the regex group, blank and non-matching lines) x {bare attribute, empty value, group regex in both spellings, plain regex}, the bare form also together with keep-sorted / keep-sorted=desc on the same block (both rules' diagnostics expected); random: blocks of 5..150 lines with and without duplicates. Non-trivial block = at least 2 keys and (a duplicate key, a skipped line, or a repeated line); distinct by (batch, block).".into();
     run.assumptions = vec![
         "content lines are shell/ruby words (block discovery itself is C03)".into(),
         "regexes come from a fixed family with hand-written extractors".into(),
